@@ -764,6 +764,7 @@ def msm_header_bits(g, number):
 @register
 class C10(Prop):
     id = "C10"
+    nostd = True          # also run on the library built without its `std` feature
     module = "C10"
     theorems = ["C10_rejects", "C10_sat_mask_bits", "C10_mask_offsets", "C10_masks", "C10_rows", "C10_decode_ids", "C10_decode_cells", "C10_msm_specs_ok", "C10_segment_decodes",
                 "C10_msm_layouts_tail", "C10_frame_decodes", "C10_decoded_order"]
@@ -941,6 +942,7 @@ def bias_hostile_frames(ctx):
 @register
 class C16(Prop):
     id = "C16"
+    nostd = True          # also run on the library built without its `std` feature
     module = "C16"
     theorems = ["C16_ssr_tables_ok", "C16_decode_bounded", "C16_decode_no_panic", "C16_counts_fit_1059", "C16_counts_fit_1065",
                 "C16_roundtrip_1059", "C16_roundtrip_1065", "C16_glo_order", "C16_roundtrip_1230",
@@ -1111,6 +1113,7 @@ def str_positions(g, lay, path=()):
 @register
 class C17(Prop):
     id = "C17"
+    nostd = True          # also run on the library built without its `std` feature
     module = "C17"
     theorems = ["C17_df88591_from_str", "C17_from_char", "C17_array_string_prefix", "C17_utf8_valid", "C17_utf8_roundtrip", "C17_text_too_long", "C17_invalid_utf8_rejected",
                 "C17_descriptor_roundtrip", "C17_text_roundtrip_1029", "C17_frame_1029"]
@@ -1409,6 +1412,7 @@ def msm_hostile_frames(ctx):
 @register
 class C02(Prop):
     id = "C02"
+    nostd = True          # also run on the library built without its `std` feature
     module = "C02"
     theorems = ["C02_layouts_decode_safe", "C02_layout_total", "C02_outcomes", "C02_decode_bytes_total", "C02_stream_total",
                 "C02_layouts_finite_ok", "C02_finite", "C02_message_finite"]
@@ -1523,6 +1527,7 @@ def message_ops(ctx, per_number_valid, per_number_hostile, opname):
 @register
 class C09(Prop):
     id = "C09"
+    nostd = True          # also run on the library built without its `std` feature
     module = "C09"
     theorems = ["C09_well_formed_fresh", "C09_well_formed", "C09_no_wire_form", "C09_fits", "C09_put_no_panic",
                 "C09_encode_no_panic_plain", "C09_build_no_panic_plain", "C09_number_plain",
@@ -1761,6 +1766,7 @@ def _has_dup_or_unrecognised(g, msg):
 @register
 class C15(Prop):
     id = "C15"
+    nostd = True          # also run on the library built without its `std` feature
     module = "C15"
     theorems = ["C15_layouts_fit", "C15_counts_fit", "C15_size", "C15_truncated", "C15_over_capacity_vec", "C15_over_capacity_str", "C15_no_utf8_all_but_1029",
                 "C15_lists_survive", "C15_shape_list"]
